@@ -17,7 +17,7 @@ import numpy as np
 from gym_gridverse.envs.visibility_functions import visibility_function_registry as VF
 from gym_gridverse.geometry import Area, Position
 from gym_gridverse.grid import Grid
-from gym_gridverse.grid_object import Floor, Wall
+from gym_gridverse.grid_object import Color, Door, Floor, Wall
 from gym_gridverse.utils.raytracing import compute_rays_fancy
 
 from .. import dyn
@@ -29,12 +29,21 @@ from ..desc import FLOOR, HIDDEN, NONE, WALL, mkstate, tup
 from ..pool import pmap
 
 
-def grid_of(pattern, h, w):
-    return Grid([[Wall() if pattern >> (y * w + x) & 1 else Floor() for x in range(w)] for y in range(h)])
+def grid_of(pattern, h, w, style='wall'):
+    """style 'wall': opaque = Wall, transparent = Floor; 'door': opaque = closed Door, transparent = open Door (same
+    object type everywhere, opacity carried by the status only); 'mixed': alternate the two encodings cell by cell"""
+    def cell(y, x):
+        opaque = pattern >> (y * w + x) & 1
+        use_door = style == 'door' or (style == 'mixed' and (y + x) % 2 == 0)
+        if use_door:
+            return Door(Door.Status.CLOSED if opaque else Door.Status.OPEN, Color.RED)
+        return Wall() if opaque else Floor()
+
+    return Grid([[cell(y, x) for x in range(w)] for y in range(h)])
 
 
-def vis_mask(name, pattern, h, w, origin, **kw):
-    arr = VF[name](grid_of(pattern, h, w), Position(*origin), **kw)
+def vis_mask(name, pattern, h, w, origin, style='wall', **kw):
+    arr = VF[name](grid_of(pattern, h, w, style), Position(*origin), **kw)
     arr = np.asarray(arr)
     if arr.shape != (h, w):
         raise ValueError(f'visibility shape {arr.shape}')
@@ -77,6 +86,16 @@ def judge_pattern(name, pattern, h, w, origin, memo):
         v = vis(pattern)
     except Exception as e:  # noqa: BLE001
         return f'{name} raised {type(e).__name__}: {e}'
+    # visibility depends on opacity only, not on which object type carries it (doors are opaque by status)
+    for style in ('door', 'mixed'):
+        try:
+            v_alt = vis_mask(name, pattern, h, w, origin, style=style)
+        except Exception as e:  # noqa: BLE001
+            return f'{name} raised {type(e).__name__} on the {style} encoding of the pattern: {e}'
+        if v_alt != v:
+            diff = [(b // w, b % w) for b in range(h * w) if (v ^ v_alt) >> b & 1]
+            return (f'visibility differs between the Wall/Floor encoding and the {style} encoding (closed/open doors) of the '
+                    f'same opacity pattern at cells {diff}')
     o = origin[0] * w + origin[1]
     if not v >> o & 1:
         return "the agent's own cell is not visible"
